@@ -196,6 +196,50 @@ func runAny(c *mon.Case) {
 	c.Evals(n - 1)
 }
 
+// tails enumerates inputs that end inside an unterminated construct: every
+// backslash escape (complete, truncated at each position, out of range)
+// inside an open double-quoted string, and every opener of the grammar.
+var tails = func() []string {
+	var ts []string
+	for b := 0; b < 256; b++ { // "\<byte>
+		ts = append(ts, "\"\\"+string([]byte{byte(b)}))
+	}
+	for a := 0; a < 8; a++ { // octal escapes of 1..3 digits, including > \377
+		ts = append(ts, fmt.Sprintf("\"\\%d", a))
+		for b := 0; b < 8; b++ {
+			ts = append(ts, fmt.Sprintf("\"\\%d%d", a, b))
+			for d := 0; d < 8; d++ {
+				ts = append(ts, fmt.Sprintf("\"\\%d%d%d", a, b, d), fmt.Sprintf("\"x\\%d%d%dy", a, b, d))
+			}
+		}
+	}
+	for _, lead := range []string{"x", "u", "U", "c", "^"} {
+		for _, digits := range []string{"", "4", "41", "0041", "00000041", "0010ffff", "00110000", "d800", "g", "zz", "@", "?", "[", "~"} {
+			for k := 0; k <= len(digits); k++ {
+				ts = append(ts, "\"\\"+lead+digits[:k])
+			}
+		}
+	}
+	ts = append(ts, "'", "'it''s", "'a\n", "\"", "\"a\nb", "(", "?(", "[", "[&", "[&k=", "{", "{|x|", "{ ", "a |", "a | ", "a >", "a > ", "a 2>", "a 2>&", "a >&",
+		"a <", "$", "$x[", "$x[0", "$@", "$ns:", "~", "a ^", "a ^\r", "a ^\n", "a &", "a;", "if a {", "if a { } el", "a[", "a[&", "x=", "x = ", "&k=", "a &k", "a &k=", "*[", "**[se", "#", "# c")
+	return ts
+}()
+
+func runTails(c *mon.Case) {
+	prefixes := []string{"", "echo ", "put a; echo ", "e |\n", "fn f {\n  echo ", "x=(", "[\"ok\" "}
+	t := tails[c.I%len(tails)]
+	for _, p := range prefixes {
+		s := p + t
+		errs := parseErrs(s)
+		if checkAny(c, "tail", s, errs) {
+			c.Nontrivial(s)
+		}
+		c.Count("tail_inputs", 1)
+	}
+	c.Evals(len(prefixes) - 1)
+	c.Sample("tail", map[string]any{"input": mon.Q("echo " + t), "errors": errList(parseErrs("echo " + t))})
+}
+
 // ---- end to end: a real editor on a fake terminal -----------------------------------
 
 // enterOutcome types p into a fresh editor, presses Enter and reports what
@@ -322,6 +366,7 @@ func Spec() *mon.Spec {
 			{Name: "seeds", Quick: 200, Thorough: 2000, Run: runSeeds},
 			{Name: "prefixes", Quick: 500, Thorough: 5000, Run: runPrefixes},
 			{Name: "arbitrary", Quick: 600, Thorough: 6000, Run: runAny},
+			{Name: "tails", Quick: len(tails), Thorough: len(tails), Run: runTails},
 			{Name: "editor", Quick: 40, Thorough: 400, Run: runEditor, Batch: 2},
 		},
 		Floors: map[string]int{
